@@ -69,3 +69,22 @@ func TestVerif_SmokeRedisFront(t *testing.T) {
 	r := b.Get(p, "/x")
 	t.Logf("truncated GET: status=%d panic=%q", r.Code, r.Panic)
 }
+
+func TestVerif_SmokeAlpha(t *testing.T) {
+	w := vfNewWorld(t)
+	defer w.Close()
+	y := w.AlphaYAML("", "injectRequestHeaders:\n- name: X-Test-User\n  values:\n  - claim: user\n")
+	p, err := w.NewProxyRaw(y, w.AlphaBaseFlags())
+	if err != nil {
+		t.Fatal(err)
+	}
+	b := vfNewBrowser("")
+	if _, _, err := b.Login(p, vfStdIdentity, "/"); err != nil {
+		t.Fatal(err)
+	}
+	r := b.Get(p, "/x", "X-Vf-Id", "alpha1")
+	h := w.Up.FindHit("alpha1")
+	if r.Code != 200 || len(h) != 1 || h[0].Header.Get("X-Test-User") != "u-alice" {
+		t.Fatalf("alpha: %d %+v", r.Code, h)
+	}
+}
